@@ -14,6 +14,7 @@ import ClairModel.Proofs.CpeBind
 import ClairModel.Proofs.CpeGrammar
 import ClairModel.Proofs.CpeClean
 import ClairModel.Proofs.CpeFS
+import ClairModel.Proofs.CpeAccept
 
 namespace ClairModel.Props.C19
 open ClairModel ClairModel.Cpe ClairModel.CpeTypes ClairModel.CpeSpec
@@ -252,6 +253,21 @@ theorem fs_roundtrip_empty_counterexample :
     of unquoted letters, digits, underscores and of quoted characters. -/
 theorem validate_accepts_iff (s : Str) : validate s = true ↔ CpeSpec.ValueGrammar s :=
   validate_iff_grammar' s
+
+/-- `UnbindFS` accepts exactly the strings of `AcceptedFS`: the prefix
+    `cpe:2.3:`, one to eleven components separated by unquoted colons, none
+    ending inside a quoting, each empty, `-`, `*` or unbinding (unquoted
+    punctuation gets quoted) to a value string of the value grammar; not all
+    empty; the part one of empty, `-`, `*`, `a`, `o`, `h`.  Everything else —
+    in particular every string with more than eleven components — is rejected
+    with an error (the model has no other outcome; that the implementation
+    never panics is what the correspondence run observes). -/
+theorem unbindFS_accepts_iff (s : Str) : (unbindFS s).isSome = true ↔ AcceptedFS s :=
+  unbindFS_accepts_iff' s
+
+/-- More than eleven components are rejected. -/
+example : unbindFS [99, 112, 101, 58, 50, 46, 51, 58, 97, 58, 98, 58, 99, 58, 100, 58, 101, 58, 102, 58, 103, 58,
+    104, 58, 105, 58, 106, 58, 107, 58, 108] = none := by decide
 
 /-- Every formatted string of the naming specification's grammar
     (`CpeSpec.FormattedString`) is accepted by `UnbindFS`; the name it yields is
